@@ -2,6 +2,7 @@
 and the judges on the implementation's plan outputs). -/
 import MsVerif.Driver.OpsSpend
 import MsVerif.Model.Plan
+import MsVerif.Spec.TapHash
 
 namespace MsVerif.Driver.PlanOps
 open MsVerif Script Spend Plan
@@ -40,6 +41,75 @@ def pushedItems (ss : Bytes) : Option (List Bytes) :=
     match o with
     | .bad 0x4f => some [0x81]
     | o => o.pushed?
+
+/-- `<type>.<class>` or `<class>.<type>.<class>` ↦ the descriptor type -/
+def tagTypeOf (tag : String) : Option DescType :=
+  (tag.splitOn ".").findSome? parseDescType
+
+def kvGet (fields : List String) (k : String) : Option String :=
+  fields.findSome? fun f => if f.startsWith (k ++ "=") then some ((f.drop (k.length + 1)).toString) else none
+
+def p2shSpk (h : Bytes) : Bytes := [0xa9, 0x14] ++ h ++ [0x87]
+def p2wshSpk (h : Bytes) : Bytes := [0x00, 0x20] ++ h
+
+/-- the scripts `Plan::update_psbt_input` must record, judged against the scriptPubKey and the
+witness / scriptSig the plan produced -/
+def psbtScriptsVerdict (ty : DescType) (spk pss : Bytes) (pwit : List Bytes)
+    (path ikx tw ts mr ik ws rs : String) : String :=
+  let none_ (name v : String) : Option String := if v == "-" then none else some ("bad:" ++ name ++ "-must-be-absent")
+  let firstBad (l : List (Option String)) : String := (l.findSome? id).getD "ok"
+  match ty with
+  | .bare | .pkh | .wpkh =>
+    firstBad [none_ "witness_script" ws, none_ "redeem_script" rs, none_ "tap_scripts" ts, none_ "tap_merkle_root" mr, none_ "tap_internal_key" ik]
+  | .sh =>
+    match Hash.ofHex rs, pushedItems pss with
+    | some r, some items =>
+      firstBad [none_ "witness_script" ws, none_ "tap_scripts" ts,
+        if rs == "-" then some "bad:redeem_script-missing" else none,
+        if p2shSpk (Hash.hash160 r) != spk then some "bad:redeem_script-does-not-hash-to-spk" else none,
+        if items.getLast? != some r then some "bad:redeem_script-is-not-the-last-push" else none]
+    | _, _ => "bad:unparseable"
+  | .wsh =>
+    match Hash.ofHex ws with
+    | some w =>
+      firstBad [none_ "redeem_script" rs, none_ "tap_scripts" ts,
+        if ws == "-" then some "bad:witness_script-missing" else none,
+        if p2wshSpk (Hash.sha256 w) != spk then some "bad:witness_script-does-not-hash-to-spk" else none,
+        if pwit.getLast? != some w then some "bad:witness_script-is-not-the-last-witness-item" else none]
+    | none => "bad:unparseable"
+  | .shWsh =>
+    match Hash.ofHex ws, Hash.ofHex rs with
+    | some w, some r =>
+      firstBad [none_ "tap_scripts" ts,
+        if ws == "-" || rs == "-" then some "bad:script-missing" else none,
+        if r != p2wshSpk (Hash.sha256 w) then some "bad:redeem_script-is-not-p2wsh-of-witness_script" else none,
+        if p2shSpk (Hash.hash160 r) != spk then some "bad:redeem_script-does-not-hash-to-spk" else none,
+        if pwit.getLast? != some w then some "bad:witness_script-is-not-the-last-witness-item" else none]
+    | _, _ => "bad:unparseable"
+  | .shWpkh =>
+    match Hash.ofHex rs with
+    | some r =>
+      firstBad [none_ "witness_script" ws, none_ "tap_scripts" ts,
+        if r.length != 22 || r.take 2 != [0x00, 0x14] then some "bad:redeem_script-is-not-p2wpkh" else none,
+        if p2shSpk (Hash.hash160 r) != spk then some "bad:redeem_script-does-not-hash-to-spk" else none]
+    | none => "bad:unparseable"
+  | .tr =>
+    if tw != "1" then "bad:output-key-is-not-internal-key-tweaked-by-tap_merkle_root" else
+    if ws != "-" || rs != "-" then "bad:script-fields-on-taproot-input" else
+    if path == "key" then
+      firstBad [none_ "tap_scripts" ts, if ik != ikx then some "bad:tap_internal_key-wrong-or-missing" else none]
+    else
+      match pwit.reverse with
+      | cb :: script :: _ =>
+        match TapHash.parseControl cb with
+        | none => "bad:control-block"
+        | some c =>
+          firstBad [
+            if ts != Hash.toHex cb ++ ":" ++ Hash.toHexW script ++ ":c0" then some "bad:tap_scripts-is-not-exactly-the-used-leaf" else none,
+            if Hash.toHex c.internalKey != ikx then some "bad:control-block-internal-key" else none,
+            if mr != Hash.toHex (TapHash.controlRoot c script) then some "bad:tap_merkle_root-is-not-the-root-the-control-block-commits-to" else none,
+            if ik != "-" && ik != ikx then some "bad:tap_internal_key-wrong" else none]
+      | _ => "bad:script-path-witness-shape"
 
 end MsVerif.Driver.PlanOps
 
@@ -99,6 +169,51 @@ def opsPlan (_t : Tables) (kind op : String) (args : List String) : Option Strin
     pure (if cw < mw then s!"bad:witness_size-{cw}-below-real-{mw}"
           else if css < mss then s!"bad:scriptsig_size-{css}-below-real-{mss}"
           else if cwt < mw + 4 * mss then s!"bad:satisfaction_weight-{cwt}-below-real-{mw + 4 * mss}"
+          else "ok")
+  -- Err(desc) of into_plan hands the original descriptor back
+  | "J", "planerr-desc", [_mode, _assets, orig, returned, eq] =>
+    pure (if orig == returned && eq == "eq=1" then "ok" else "bad:into_plan-Err-does-not-carry-the-original-descriptor")
+  -- plan / plan_mall are aliases of into_plan / into_plan_mall
+  | "J", "plan-alias", [_ty, _mode, _desc, _assets, a, b] =>
+    pure (if a == b then "ok" else "bad:deprecated-plan-differs-from-into_plan")
+  -- Assets vs an equivalent Satisfier through `impl AssetProvider for Satisfier`
+  | "J", "plan-provider-same", [_ty, _mode, _desc, _assets, a, b] =>
+    pure (if a == b then "ok"
+          else if a == "none" then "bad:satisfier-provider-plans-but-assets-do-not"
+          else if b == "none" then "bad:assets-plan-but-satisfier-provider-does-not"
+          else "bad:plans-differ")
+  -- J tmpl-items <tag> <mode> <desc> <assets> <template> <w|s> <expected item count> <extra> <actual lengths>
+  | "J", "tmpl-items", [_tag, _mode, _desc, _assets, tmpl, _kind, count, _extra, lens] => do
+    let t ← (splitItems tmpl).mapM parseItem
+    let count ← count.toNat?
+    let ls ← (splitItems lens).mapM String.toNat?
+    pure (if ls.length != count then s!"bad:{ls.length}-items-produced-for-{count}-expected"
+          else match (t.zip ls).find? (fun p => !p.1.fits p.2) with
+            | some (_, l) => s!"bad:item-of-length-{l}-does-not-fit-its-placeholder"
+            | none => "ok")
+  -- J tr-choice <tag> <mode> <desc> <assets> key=<0|1> <key|script|none> <chosen size> <size per leaf | ->
+  | "J", "tr-choice", [_tag, _mode, _desc, _assets, key, kind, chosen, sizes] => do
+    let avail := (sizes.splitOn ",").filterMap String.toNat?
+    pure (if key == "key=1" then (if kind == "key" then "ok" else "bad:key-path-available-but-not-chosen")
+          else match avail with
+            | [] => if kind == "none" then "ok" else "bad:plan-although-no-path-is-available"
+            | a :: as =>
+              let m := as.foldl min a
+              if kind != "script" then "bad:script-path-available-but-" ++ kind ++ "-chosen"
+              else if chosen.toNat? == some m then "ok" else s!"bad:chosen-{chosen}-but-cheapest-leaf-is-{m}")
+  | "J", "psbt-keys", [_tag, _mode, _desc, _assets, a, e] =>
+    pure (if a.drop 2 == e.drop 2 then "ok" else "bad:key-origins-written-differ-from-the-keys-the-plan-needs")
+  | "J", "psbt-leafhashes", [_tag, _mode, _desc, _assets, a, e] =>
+    pure (if a.drop 2 == e.drop 2 then "ok" else "bad:tap_key_origins-leaf-hashes")
+  | "J", "psbt-scripts", tag :: _mode :: _desc :: _assets :: spk :: pss :: pwit :: fields => do
+    let ty ← tagTypeOf tag
+    let spk ← Hash.ofHex spk; let pss ← Hash.ofHex pss; let pwit ← parseHexList pwit
+    let g := fun k => (kvGet fields k).getD "?"
+    pure (psbtScriptsVerdict ty spk pss pwit (g "path") (g "ikx") (g "tw") (g "ts") (g "mr") (g "ik") (g "ws") (g "rs"))
+  | "J", "psbt-finalize", [_tag, _mode, _desc, _assets, res, fw, fs, pw, pss] =>
+    pure (if res != "ok" then "bad:updated-and-signed-psbt-does-not-finalize:" ++ res
+          else if fw != pw then "bad:finalized-witness-differs-from-Plan::satisfy"
+          else if fs != pss then "bad:finalized-scriptSig-differs-from-Plan::satisfy"
           else "ok")
   | _, _, _ => none
 
